@@ -2,7 +2,8 @@
    valid block descending from finalized is imported without error; the incremental tally equals the tally rebuilt
    from the definitions."  The model is Bft/Model.v (tied to bft.Engine / bft.justifier by the correspondence run). *)
 From Coq Require Import List NArith Bool Lia.
-From Verif Require Import Common.Util Bft.Tree Bft.Model Bft.Quorum Bft.ProofsTally.
+From Verif Require Import Common.Util Bft.Tree Bft.Model Bft.Quorum Bft.ProofsTally Bft.ProofsChain Bft.ProofsSearch
+  Bft.ProofsNode Bft.Safety Bft.ProofsWitness.
 Import ListNotations.
 Open Scope N_scope.
 
@@ -24,12 +25,80 @@ Theorem incremental_eq_scratch c pq segp segp' b :
   summarize (add_blk c (tally c pq segp') b) = summarize (tally c pq (b :: segp)).
 Proof. intros Hs. apply js_equiv_summarize. exact (incremental_eq_scratch_lemma c pq segp segp' b Hs). Qed.
 
-(* non-vacuity: a concrete vote list with a COM/non-COM flip, fed in two orders with a duplicate *)
+(* 3. along any import history (any tree, any parent-before-child order, duplicates, refused blocks) of a node: the
+      repository stays well formed, every persisted quality record equals the quality computed from the definitions
+      (no records, no caches: state_pure), and the best block beats every other stored block in the total order
+      (quality from the definitions, then total score, then smaller id) *)
+Theorem import_history_invariants c guard g master bs : 0 < c_L c -> b_num g = 0 ->
+  (forall nd b, inv c nd -> In b bs -> valid_child (n_repo nd) b) ->
+  inv c (import_all c guard (init_node g master) bs).
+Proof. intros HL Hg Hv. apply import_all_inv; [exact HL | apply init_inv; exact Hg | exact Hv]. Qed.
+
+Theorem stored_quality_is_from_scratch c nd x : 0 < c_L c -> inv c nd -> In x (n_repo nd) ->
+  s_q (compute_state c (n_repo nd) (e_qs (n_eng nd)) x) = quality_pure c (chain_of (n_repo nd) (b_id x)).
+Proof. intros HL Hi Hin. exact (compute_state_stored c HL _ _ x (inv_wf c nd Hi) (inv_qs c nd Hi) Hin). Qed.
+
+Theorem best_is_max c nd x : inv c nd -> In x (n_repo nd) -> b_id x <> n_best nd ->
+  beats c (n_repo nd) (best_blk nd) x = true.
+Proof. intros Hi. exact (inv_max c nd Hi x). Qed.
+
+(* two nodes holding the same set of blocks (whatever the arrival orders, duplicates, restarts — restart keeps
+   repository, records and best pointer) report the same best block *)
+Theorem best_order_independent c n1 n2 : 0 < c_L c -> inv c n1 -> inv c n2 ->
+  (forall x, In x (n_repo n1) <-> In x (n_repo n2)) ->
+  (forall x, In x (n_repo n1) -> qual c (n_repo n1) x = qual c (n_repo n2) x) ->
+  n_best n1 = n_best n2.
+Proof. intros HL. exact (same_repo_same_best c HL n1 n2). Qed.
+
+(* 4. quality never decreases along a chain and grows by at most one per block *)
+Theorem quality_monotone c b t : 0 < c_L c -> grounded (b :: t) ->
+  quality_pure c t <= quality_pure c (b :: t) <= quality_pure c t + 1.
+Proof. intros HL. exact (quality_step c HL b t). Qed.
+
+(* 5. "imported without error however late".  Statement: no import of a numbered block ever fails in CommitBlock.
+      On the code before the F1 repair it is refuted (witness: the late fork inside the finalized epoch);
+      for the repaired code the search argument is proved over abstract quality sequences (_partial: the glue
+      "the engine's per-epoch records along the chain form such a sequence" is established by the invariants above
+      but not yet assembled into the statement). *)
+Definition commit_block_total := commit_block_total_statement true.
+
+Theorem commit_block_error_refuted : ~ commit_block_total_statement false.
+Proof. exact commit_block_error_refuted_lemma. Qed.
+
+Theorem commit_block_total_partial (q : N -> N) (n Q : N) :
+  2 <= n -> (forall i, i + 1 < n -> q i <= q (i + 1) <= q i + 1) ->
+  q (n - 1) = Q -> q (n - 1) = q (n - 2) + 1 -> 1 < Q ->
+  forall f, (forall i, i < n -> f i = Ok (Q - 1 <=? q i)) ->
+  exists m, bsearch (S (N.to_nat n)) f 0 n = Ok m /\ m < n /\ q m = Q - 1.
+Proof. exact (search_total_lemma q n Q). Qed.
+
+Theorem committed_implies_justified c pq seg :
+  s_comm (summarize (tally c pq seg)) = true -> s_just (summarize (tally c pq seg)) = true.
+Proof. exact (committed_implies_justified_lemma c pq seg). Qed.
+
+(* non-vacuity *)
 Example tally_example :
   let l1 := [(1, (true, 5)); (2, (true, 7)); (1, (false, 5)); (3, (true, 1))] in
   let l2 := [(3, (true, 1)); (1, (false, 5)); (2, (true, 7)); (1, (true, 5)); (2, (true, 7))] in
   summarize (tally_votes 2 0 8 l1) = mkS 3 true false /\ summarize (tally_votes 2 0 8 l2) = mkS 3 true false.
 Proof. vm_compute. split; reflexivity. Qed.
 
+Example f1_tree_imports_with_guard :
+  import_codes true cfg4 (init_node gen 1) f1_blocks = [0;0;0;0;0;0;0;0;0;0;0;0;0;0] /\
+  import_codes false cfg4 (init_node gen 1) f1_blocks = [0;0;0;0;0;0;0;0;0;0;0;0;0;103].
+Proof. split; [exact f1_guarded_ok | exact f1_unguarded_fails]. Qed.
+
+Example search_example : (* qualities 1,2,2,3 per epoch, committed epoch has quality 3: the search finds index 1 *)
+  bsearch 5 (fun i => Ok (2 <=? nth (N.to_nat i) [1;2;2;3] 0)) 0 4 = Ok 1.
+Proof. vm_compute. reflexivity. Qed.
+
 Print Assumptions tally_order_independent.
 Print Assumptions incremental_eq_scratch.
+Print Assumptions import_history_invariants.
+Print Assumptions stored_quality_is_from_scratch.
+Print Assumptions best_is_max.
+Print Assumptions best_order_independent.
+Print Assumptions quality_monotone.
+Print Assumptions commit_block_error_refuted.
+Print Assumptions commit_block_total_partial.
+Print Assumptions committed_implies_justified.
